@@ -435,6 +435,19 @@ def fam_errdefaults(tier: str, rng: random.Random) -> Iterator[dict]:
             yield q
 
 
+def with_bare_override(progs: Iterable[dict], rng: random.Random, n: int) -> List[dict]:
+    """A sample of the programs whose callables live in a class, rendered with one more class level that overrides every
+    member without contracts of its own (the metaclass builds that override's checker from the inherited contracts)."""
+    pool = [p for p in progs if p["cls"] and not p.get("bare_override")]
+    out = []
+    for p in rng.sample(pool, min(n, len(pool))):
+        q = json_copy(p)
+        q["bare_override"] = True
+        q["tag"] = p["tag"] + "-bare-override"
+        out.append(q)
+    return out
+
+
 def fam_errf_wrapped(tier: str, rng: random.Random) -> Iterator[dict]:
     """C09: the error factory passed through a functools.wraps decorator: it is still called with the values it names."""
     for p in fam_err(tier, rng):
@@ -457,6 +470,19 @@ def fam_err_inherited(tier: str, rng: random.Random) -> Iterator[dict]:
                                     tag="err-inherited")
                     if p is not None:
                         yield p
+                        # the instance's class overrides the member without contracts of its own: the error of an
+                        # INHERITED contract is raised, through the checker the metaclass created for the override
+                        q = json_copy(p)
+                        q["bare_override"] = True
+                        q["tag"] = "err-inherited-bare-override"
+                        yield q
+        for form in ("inst", "factory"):
+            for isasync in (False, True):
+                p = member_prog(kind, False, [[1]], 1, 0, [True], [False], [form], False, isasync, ncalls=2,
+                                tag="err-inherited-post")
+                if p is not None:
+                    p["bare_override"] = True
+                    yield p
 
 
 def fam_reent_cap(tier: str, rng: random.Random) -> Iterator[dict]:
